@@ -208,9 +208,13 @@ def gen_case(rng, pid, tier):
             ops.append(['sstate', rng.randint(1, nsrv), rng.choice(['up', 'down', 'frozen', 'frozen']),
                         rng.randint(0, 2)])
         elif r < 0.81:
-            ops.append(['blacklist', rng.choice([[], ['p1.a0'], ['p2.*'], ['p1.a1', 'p2.a0']])])
+            # overlapping entries too: removing one of them must leave the instance blacklisted by the other
+            ops.append(['blacklist', rng.choice([[], ['p1.a0'], ['p2.*'], ['p1.a1', 'p2.a0'], ['p1.*', 'p1.a0'],
+                                                 ['p1.*'], ['p*.a0', 'p2.*'], ['p2.a0', 'p2.a*']])])
         elif r < 0.83:
-            ops.append(['appsev', rng.randint(1, napps[0]), rng.choice([1, 50, 100])])
+            # re-evaluation event; sometimes for an instance deleted from /scheduled whose children watch has
+            # not fired yet (the events watch is served first)
+            ops.append(['appsev', rng.randint(1, napps[0]), rng.choice([1, 50, 100]), rng.random() < 0.3])
         elif r < 0.91:
             ops.append(['tick', rng.choice([1, 5, 29, 31, 40, 200])])
         elif r < (0.94 if long_ else 0.92):
@@ -251,7 +255,9 @@ def gen_case(rng, pid, tier):
                     sub.append(newapp())
             ops.append(['offline', sub])
         if rng.random() < (0.8 if long_ else 0.6):
-            ops.append(['cycle'])
+            # mostly two seconds after the event; sometimes within the same second (instances are then placed
+            # in the second in which a server registered its presence)
+            ops.append(['cycle'] if rng.random() < 0.75 else ['cycle', 0])
     ops.append(['cycle'])
     return {'setup': setup, 'ops': ops}
 
@@ -1149,7 +1155,11 @@ def _presence(w, sid, up, emit=True):
             return False
         c = fz.Client(w.store)
         w.node_clients[sid] = c
-        c.create(path, b'{}', ephemeral=True)
+        w.store.ms_off = 200            # presence is registered earlier within the second than the master writes
+        try:
+            c.create(path, b'{}', ephemeral=True)
+        finally:
+            w.store.ms_off = 500
         if emit:
             _env(w, 'zpres %d %d' % (sid, w.store.nodes[path].ctime))
     else:
@@ -1210,10 +1220,22 @@ class _SchedView(object):
         self.cell = w.m.cell
         self.now = w.now
         self.apps = {aid_of(n): a for n, a in w.m.cell.apps.items()}
+        rec = w.store.nodes.get('/blackedout.apps')
+        try:
+            pats = json.loads(rec.data.decode()) if rec is not None and rec.data else []
+        except ValueError:
+            pats = []
+        import fnmatch
+        # blacklisted according to the stored list (every change of it is followed by its event in this engine)
+        self.blacklist_spec = lambda name, pats=tuple(pats or ()): any(
+            fnmatch.fnmatch(name.split('#')[0], p) for p in pats)
 
 
-def _cycle(w, pid):
-    w.now += 2
+def _cycle(w, pid, dt=2):
+    if dt == 0 and getattr(w, 'last_cycle_at', None) == w.now:
+        dt = 2          # the clock strictly advances between two cycles (a placement always gets a new expiry)
+    w.now += dt
+    w.last_cycle_at = w.now
     w.run.op('tick %d' % w.now, None)
     _deliver_scheduled(w)
     before = {an: (a.server, a.identity) for an, a in w.m.cell.apps.items()}
@@ -1313,7 +1335,7 @@ def _apply(case, pid, run, w, op):
         run.op('tick %d' % w.now, None)
         return
     if k == 'cycle':
-        guarded('cycle', lambda: _cycle(w, pid))
+        guarded('cycle', lambda: _cycle(w, pid, op[1] if len(op) > 1 else 2))
         _after_cycle(w, pid, 'cycle')
         return
     if k == 'restart':
@@ -1455,11 +1477,19 @@ def _apply(case, pid, run, w, op):
         name = w.apps_n.get(op[1])
         if name is None or '/scheduled/' + name not in w.store.nodes:
             return
-        man = json.loads(w.store.nodes['/scheduled/' + name].data.decode())
-        man['priority'] = op[2]
-        w.zput('/scheduled/' + name, man)
-        _post_event_node(w, 'apps', [name])
-        guarded('event:apps', lambda: w.m.process_events(w.store.children('/events')))
+        if len(op) > 3 and op[3]:
+            w.stats['appsev-for-deleted-instance'] += 1
+            w.zdel('/scheduled/' + name)
+            _env(w, 'zsched %d 0' % aid_of(name))
+            _post_event_node(w, 'apps', [name])
+            guarded('event:apps', lambda: w.m.process_events(w.store.children('/events')))
+            guarded('event:scheduled', lambda: _deliver_scheduled(w))
+        else:
+            man = json.loads(w.store.nodes['/scheduled/' + name].data.decode())
+            man['priority'] = op[2]
+            w.zput('/scheduled/' + name, man)
+            _post_event_node(w, 'apps', [name])
+            guarded('event:apps', lambda: w.m.process_events(w.store.children('/events')))
     else:
         return
     _sync(w)
